@@ -163,6 +163,16 @@ def canonical_facts(raw):
     if ren:
         canon.apply(raw, {}, ren)
         F = factsmod.Facts(raw)
+    # the branch-side primitive, found by its definition; rules and the interpreter's model refer to it as `to_right`
+    from .rules import common
+    F.to_right_path = None
+    F.to_right_path = common.find_to_right(F)
+    if F.to_right_path:
+        old = F.short_of.get(F.to_right_path)
+        if old and old != "to_right":
+            F.short.pop(old, None)
+        F.short["to_right"] = F.to_right_path
+        F.short_of[F.to_right_path] = "to_right"
     return F
 
 
